@@ -152,6 +152,8 @@ class FibRun:
                 if len(top) != 1:
                     raise st.TlvError('not-one-element')
                 t, v = top[0]
+                if t == 0x05:
+                    continue          # a registration command of the application (legacy register()), not a reply
                 tok = None
                 env = 'bare'
                 inner = w
@@ -189,15 +191,39 @@ class FibRun:
         if a in ('Attach', 'AttachDup'):
             rep = name_repr(ev['n'], ev['repr'])
             val = self.validator() if ev.get('val') else None
+            # every third (first-time) attach goes through the other public entry point that installs a handler:
+            # appv2 route() (= attach_handler + auto-registration list), legacy register() (= set_interest_filter + one
+            # registration command, which nobody answers here)
+            self.natt_calls = getattr(self, 'natt_calls', 0) + 1
+            other = a == 'Attach' and self.natt_calls % 3 == 0 and self.face.running
             try:
                 if self.front == 'v2':
-                    self.app.attach_handler(rep, self.handler(ev['h']), val)
+                    if other:
+                        self.app.route(rep, val)(self.handler(ev['h']))
+                    else:
+                        self.app.attach_handler(rep, self.handler(ev['h']), val)
+                elif other:
+                    t = loop.create_task(self.app.register(rep, self.handler(ev['h']), val))
+
+                    def done(t):
+                        # the caller of register() gets its result: False (nobody answers), or the documented
+                        # NetworkError when the face went down while the call was waiting for its turn
+                        if not t.cancelled() and t.exception() is not None and \
+                                not isinstance(t.exception(), (ndn_types.NetworkError, ValueError)):
+                            self.bg.append('register:' + type(t.exception()).__name__)
+                    t.add_done_callback(done)
+                    loop.settle(timers_now=False)
+                    if t.done() and not t.cancelled() and isinstance(t.exception(), ValueError):
+                        raise t.exception()
                 else:
                     self.app.set_interest_filter(rep, self.handler(ev['h']), val)
                 ev['raised'] = False
             except ValueError:
                 ev['raised'] = True
-            scribble(rep)
+            # the caller may reuse its buffer as soon as a SYNCHRONOUS call has returned; legacy register() is a coroutine
+            # that is still running (waiting for the forwarder), its argument has to stay as it is until it is done
+            if not (other and self.front == 'legacy'):
+                scribble(rep)
             loop.settle(timers_now=False)
         elif a == 'Detach':
             rep = name_repr(ev['n'], ev.get('repr', 'uri'))
